@@ -116,4 +116,187 @@ theorem gru_block_eq (idx : Nat) :
       have b : ¬ ((idx : Int) = 1) := by omega
       simp [h0, h1, a, b]
 
+
+/-! ## forward programs: the AST of every `forward`, interpreted on instantiated modules, is the expansion of the
+hand-written shape program the theorems are about (`C17.expanded_program_equiv` relates the two semantically) -/
+
+theorem forward_unet2d_eq :
+    fw_unet2d_L1 = expand (unet UnetP.std 1) ∧
+    fw_unet2d_L2 = expand (unet UnetP.std 2) ∧
+    fw_unet2d_L3 = expand (unet UnetP.std 3) ∧
+    fw_unet2d_L4 = expand (unet UnetP.std 4) ∧
+    fw_unet2d_L5 = expand (unet UnetP.std 5) := by decide
+
+theorem forward_normunet2d_eq :
+    fw_normunet2d_L1 = expand (normUnet UnetP.std 1) ∧
+    fw_normunet2d_L2 = expand (normUnet UnetP.std 2) ∧
+    fw_normunet2d_L3 = expand (normUnet UnetP.std 3) ∧
+    fw_normunet2d_L4 = expand (normUnet UnetP.std 4) := by decide
+
+theorem forward_unet3d_eq :
+    fw_unet3d_L1 = expand (unet3d UnetP.std 1) ∧
+    fw_unet3d_L2 = expand (unet3d UnetP.std 2) ∧
+    fw_unet3d_L3 = expand (unet3d UnetP.std 3) := by decide
+
+theorem forward_normunet3d_eq :
+    fw_normunet3d_L1 = expand (normUnet3d UnetP.std 1) ∧
+    fw_normunet3d_L2 = expand (normUnet3d UnetP.std 2) := by decide
+
+theorem forward_mwcnn_eq :
+    fw_mwcnn_S1 = expand (mwcnn MwP.std 1) ∧
+    fw_mwcnn_S2 = expand (mwcnn MwP.std 2) ∧
+    fw_mwcnn_S3 = expand (mwcnn MwP.std 3) ∧
+    fw_mwcnn_S4 = expand (mwcnn MwP.std 4) ∧
+    fw_mwcnn_S5 = expand (mwcnn MwP.std 5) ∧
+    fw_mwcnn_S3_bn = expand (mwcnn MwP.std 3) := by decide
+
+theorem forward_dub_eq :
+    fw_dub_hooked = expand (dub DidnP.std true) ∧
+    fw_dub_plain = expand (dub DidnP.std false) := by decide
+
+theorem forward_didn_eq :
+    fw_didn_1_1_noskip = expand (didn DidnP.std 1 1 false) ∧
+    fw_didn_1_1_skip = expand (didn DidnP.std 1 1 true) ∧
+    fw_didn_2_3_noskip = expand (didn DidnP.std 2 3 false) ∧
+    fw_didn_2_3_skip = expand (didn DidnP.std 2 3 true) ∧
+    fw_didn_3_2_noskip = expand (didn DidnP.std 3 2 false) ∧
+    fw_didn_3_2_skip = expand (didn DidnP.std 3 2 true) := by decide
+
+theorem forward_resnet_eq :
+    fw_resnet_B1 = expand (resnet 3 1 1) ∧
+    fw_resnet_B2 = expand (resnet 3 1 2) ∧
+    fw_resnet_B3 = expand (resnet 3 1 3) ∧
+    fw_resnet_B2_nobn = expand (resnet 3 1 2) := by decide
+
+theorem forward_conv_eq :
+    fw_conv_N1 = expand (convNet 3 1 false 1) ∧
+    fw_conv_N1_bn = expand (convNet 3 1 true 1) ∧
+    fw_conv_N2 = expand (convNet 3 1 false 2) ∧
+    fw_conv_N2_bn = expand (convNet 3 1 true 2) ∧
+    fw_conv_N3 = expand (convNet 3 1 false 3) ∧
+    fw_conv_N3_bn = expand (convNet 3 1 true 3) ∧
+    fw_conv_N4 = expand (convNet 3 1 false 4) ∧
+    fw_conv_N4_bn = expand (convNet 3 1 true 4) := by decide
+
+theorem forward_gru_eq :
+    fw_gru_repl_noin_1 = expand (gru true false 1) ∧
+    fw_gru_repl_noin_2 = expand (gru true false 2) ∧
+    fw_gru_repl_noin_3 = expand (gru true false 3) ∧
+    fw_gru_repl_in_1 = expand (gru true true 1) ∧
+    fw_gru_repl_in_2 = expand (gru true true 2) ∧
+    fw_gru_repl_in_3 = expand (gru true true 3) ∧
+    fw_gru_zero_noin_1 = expand (gru false false 1) ∧
+    fw_gru_zero_noin_2 = expand (gru false false 2) ∧
+    fw_gru_zero_noin_3 = expand (gru false false 3) ∧
+    fw_gru_zero_in_1 = expand (gru false true 1) ∧
+    fw_gru_zero_in_2 = expand (gru false true 2) ∧
+    fw_gru_zero_in_3 = expand (gru false true 3) := by decide
+
+theorem forward_normgru_eq :
+    fw_normgru_2 = expand (gru true false 2) := by decide
+
+
+/-! ## block schedules of the unrolled networks: read from each `forward` = hand-written `Shapes.Sched` -/
+
+theorem schedule_Unet2d_eq :
+    sched_Unet2d_plain_sense = Sched.blocks (schedUnet2d) 0 ∧
+    sched_Unet2d_plain_sense_skip = Sched.blocks (schedUnet2d) 0 ∧
+    sched_Unet2d_plain_zero_filled = Sched.blocks (schedUnet2d) 0 ∧
+    sched_Unet2d_norm_sense = Sched.blocks (schedUnet2d) 0 ∧
+    sched_Unet2d_norm_sense_skip = Sched.blocks (schedUnet2d) 0 ∧
+    sched_Unet2d_norm_zero_filled = Sched.blocks (schedUnet2d) 0 := by decide
+
+theorem schedule_EndToEndVarNet_eq :
+    sched_EndToEndVarNet = Sched.blocks (schedSingle 2 2) 2 := by decide
+
+theorem schedule_RIM_eq :
+    sched_RIM_default = Sched.blocks (schedSingle 4 2) 2 ∧
+    sched_RIM_shared = Sched.blocks (schedSingle 4 2) 2 ∧
+    sched_RIM_instnorm = Sched.blocks (schedSingle 4 2) 2 ∧
+    sched_RIM_dense = Sched.blocks (schedSingle 4 2) 2 ∧
+    sched_RIM_sense = Sched.blocks (schedSingle 4 2) 2 ∧
+    sched_RIM_learned_init = Sched.blocks (schedSingle 4 2) 2 ∧
+    sched_RIM_normalized = Sched.blocks (schedSingle 4 2) 2 ∧
+    sched_RIM_noskip = Sched.blocks (schedSingle 4 2) 2 ∧
+    sched_RIM_zeropad = Sched.blocks (schedSingle 4 2) 2 ∧
+    sched_RIM_scaled_loglikelihood = Sched.blocks (schedSingle 4 2) 2 := by decide
+
+theorem schedule_LPDNet_eq :
+    sched_LPDNet_MWCNN_DIDN = Sched.blocks (schedLpd 2 2) 2 ∧
+    sched_LPDNet_MWCNN_CONV = Sched.blocks (schedLpd 2 2) 2 ∧
+    sched_LPDNet_UNET_UNET = Sched.blocks (schedLpd 2 2) 2 ∧
+    sched_LPDNet_NORMUNET_NORMUNET = Sched.blocks (schedLpd 2 2) 2 ∧
+    sched_LPDNet_UNET_DIDN = Sched.blocks (schedLpd 2 2) 2 ∧
+    sched_LPDNet_NORMUNET_CONV = Sched.blocks (schedLpd 2 2) 2 := by decide
+
+theorem schedule_XPDNet_eq :
+    sched_XPDNet_primal_only = Sched.blocks (schedXpd 1 2 false) 2 ∧
+    sched_XPDNet_CONV = Sched.blocks (schedXpd 2 2 true) 2 ∧
+    sched_XPDNet_DIDN = Sched.blocks (schedXpd 2 2 true) 2 ∧
+    sched_XPDNet_primal_only_bn = Sched.blocks (schedXpd 1 2 false) 2 ∧
+    sched_XPDNet_normalize = Sched.blocks (schedXpd 1 2 false) 2 := by decide
+
+theorem schedule_KIKINet_eq :
+    sched_KIKINet_MWCNN_DIDN = Sched.blocks (schedKiki) 2 ∧
+    sched_KIKINet_UNET_CONV = Sched.blocks (schedKiki) 2 ∧
+    sched_KIKINet_NORMUNET_UNET = Sched.blocks (schedKiki) 2 ∧
+    sched_KIKINet_MWCNN_NORMUNET = Sched.blocks (schedKiki) 2 ∧
+    sched_KIKINet_normalize = Sched.blocks (schedKiki) 2 := by decide
+
+theorem schedule_JointICNet_eq :
+    sched_JointICNet_unet = Sched.blocks (schedJointIC) 2 ∧
+    sched_JointICNet_normunet = Sched.blocks (schedJointIC) 2 := by decide
+
+theorem schedule_MultiDomainNet_eq :
+    sched_MultiDomainNet_std = Sched.blocks (schedMultiDomain true) 0 ∧
+    sched_MultiDomainNet_nostd = Sched.blocks (schedMultiDomain false) 0 := by decide
+
+theorem schedule_RecurrentVarNet_eq :
+    sched_RecurrentVarNet_default = Sched.blocks (schedSingle 2 2) 2 ∧
+    sched_RecurrentVarNet_shared = Sched.blocks (schedSingle 2 2) 2 ∧
+    sched_RecurrentVarNet_normalized = Sched.blocks (schedSingle 2 2) 2 ∧
+    sched_RecurrentVarNet_learned_sense = Sched.blocks (schedSingle 2 2) 2 ∧
+    sched_RecurrentVarNet_learned_zero_filled = Sched.blocks (schedSingle 2 2) 2 := by decide
+
+theorem schedule_CIRIM_eq :
+    sched_CIRIM_noshare = Sched.blocks (schedCirim 2 4) 4 ∧
+    sched_CIRIM_share = Sched.blocks (schedCirim 2 4) 4 := by decide
+
+theorem schedule_IterDualNet_eq :
+    sched_IterDualNet_default = Sched.blocks (schedIterDual true) 2 ∧
+    sched_IterDualNet_normunets = Sched.blocks (schedIterDual true) 2 ∧
+    sched_IterDualNet_shared_nopercoil = Sched.blocks (schedIterDual false) 2 := by decide
+
+theorem schedule_ConjGradNet_eq :
+    sched_ConjGradNet_resnet_sense_FR = Sched.blocks (schedSingle 2 2) 2 ∧
+    sched_ConjGradNet_unet_zero_filled_PRP = Sched.blocks (schedSingle 2 2) 2 ∧
+    sched_ConjGradNet_normunet_zeros_DY = Sched.blocks (schedSingle 2 2) 2 ∧
+    sched_ConjGradNet_didn_sense_BAN = Sched.blocks (schedSingle 2 2) 2 ∧
+    sched_ConjGradNet_conv_sense_FR = Sched.blocks (schedSingle 2 2) 2 ∧
+    sched_ConjGradNet_conv_sense_FR_tol1e_3 = Sched.blocks (schedSingle 2 2) 2 := by decide
+
+theorem schedule_MRIVarSplitNet_eq :
+    sched_MRIVarSplitNet_unet_None_sense = Sched.blocks (schedVarSplit false) 2 ∧
+    sched_MRIVarSplitNet_resnet_conv_sense = Sched.blocks (schedVarSplit true) 2 ∧
+    sched_MRIVarSplitNet_didn_unet_sense = Sched.blocks (schedVarSplit true) 2 ∧
+    sched_MRIVarSplitNet_conv_didn_zero_filled = Sched.blocks (schedVarSplit true) 2 ∧
+    sched_MRIVarSplitNet_unet_resnet_sense = Sched.blocks (schedVarSplit true) 2 ∧
+    sched_MRIVarSplitNet_unet_normunet_sense = Sched.blocks (schedVarSplit true) 2 ∧
+    sched_MRIVarSplitNet_normunet_None_zero_filled = Sched.blocks (schedVarSplit false) 2 := by decide
+
+theorem schedule_VSharpNet_eq :
+    sched_VSharpNet_unet_sense = Sched.blocks (schedSingle 6 2) 2 ∧
+    sched_VSharpNet_normunet_zero_filled = Sched.blocks (schedSingle 6 2) 2 ∧
+    sched_VSharpNet_resnet_sense = Sched.blocks (schedSingle 6 2) 2 ∧
+    sched_VSharpNet_didn_sense = Sched.blocks (schedSingle 6 2) 2 ∧
+    sched_VSharpNet_conv_zero_filled = Sched.blocks (schedSingle 6 2) 2 := by decide
+
+theorem schedule_VSharpNet3D_eq :
+    sched_VSharpNet3D_unet = Sched.blocks (schedSingle 6 2) 2 ∧
+    sched_VSharpNet3D_normunet = Sched.blocks (schedSingle 6 2) 2 := by decide
+
+/-- the permuted views on which the denoisers are called are the channel-first layouts of the model -/
+theorem schedule_permutes_eq :
+    sched_permutes = [(0, toChannelsFirst4), (0, toChannelsFirst3d), (1, toChannelsFirst5)] := by decide
+
 end DirectVerif.Bridge.C17
